@@ -43,6 +43,14 @@
 #include "QXmppVCardIq.h"
 #include "QXmppVersionIq.h"
 #include "Stream.h"
+#include "QXmppExternalService.h"
+#include "QXmppFileMetadata.h"
+#include "QXmppThumbnail.h"
+#include "QXmppUserTuneItem.h"
+#include "QXmppPubSubNodeConfig.h"
+#include "QXmppPubSubSubscribeOptions.h"
+#include "QXmppResultSet.h"
+#include "QXmppJingleData.h"
 #include "clientrig.h"
 #include "enumctx.h"
 #include "managers.h"
@@ -423,6 +431,12 @@ struct C01 {
             }
             structural(seedIdx, c, e1, path, true);
             structural(seedIdx, c, e1, path, false);
+            // thorough: every pair of siblings absent ("all combinations of present/absent optional fields" up to two absences)
+            if (ctx.thorough()) {
+                for (auto sib = el.nextSiblingElement(); !sib.isNull(); sib = sib.nextSiblingElement()) {
+                    structural(seedIdx, c, e1, path, true, pathOf(sib, e1));
+                }
+            }
         }
     }
 
@@ -525,7 +539,7 @@ struct C01 {
         }
     }
 
-    void structural(int seedIdx, const Codec &c, const QDomElement &e1, const QString &path, bool del)
+    void structural(int seedIdx, const Codec &c, const QDomElement &e1, const QString &path, bool del, const QString &path2 = {})
     {
         QDomDocument d;
         d.appendChild(d.importNode(e1, true));
@@ -535,6 +549,13 @@ struct C01 {
             return;
         }
         auto parent = el.parentNode().toElement();
+        QDomElement el2;
+        if (!path2.isEmpty()) {
+            el2 = findPath(root, path2);
+            if (el2.isNull() || el2.parentNode() != el.parentNode()) {
+                return;
+            }
+        }
         // documented dependencies between sibling fields (deleting one makes the document one the writer never produces)
         static const QStringList dependentParents = { QStringLiteral("reason{urn:xmpp:jingle:1}"), QStringLiteral("time{urn:xmpp:time}"), QStringLiteral("file-sharing{urn:xmpp:sfs:0}") };
         if (del && dependentParents.contains(QStringLiteral("%1{%2}").arg(parent.localName().isEmpty() ? parent.tagName() : parent.localName(), parent.namespaceURI()))) {
@@ -542,6 +563,9 @@ struct C01 {
         }
         if (del) {
             parent.removeChild(el);
+            if (!el2.isNull()) {
+                parent.removeChild(el2);
+            }
         } else {
             parent.insertAfter(el.cloneNode(true), el);
         }
@@ -554,7 +578,7 @@ struct C01 {
         QDomElement r;
         ++ctx.evaluations;
         ++ctx.nontrivial;
-        ctx.count(del ? QStringLiteral("child_deletions") : QStringLiteral("child_duplications"));
+        ctx.count(!path2.isEmpty() ? QStringLiteral("child_pair_deletions") : del ? QStringLiteral("child_deletions") : QStringLiteral("child_duplications"));
         if (!roundTrip(c, m, &out, &dr, &r)) {
             return;
         }
@@ -567,9 +591,10 @@ struct C01 {
         }
         QStringList want, have;
         const QString editedTag = path.section(PSEP, -1).section(QLatin1Char('['), 0, 0);
+        const QString editedTag2 = path2.section(PSEP, -1).section(QLatin1Char('['), 0, 0);
         for (auto ch = mp.firstChildElement(); !ch.isNull(); ch = ch.nextSiblingElement()) {
             const QString tag = QStringLiteral("%1{%2}").arg(ch.localName().isEmpty() ? ch.tagName() : ch.localName(), ch.namespaceURI());
-            if (tag != editedTag) {
+            if (tag != editedTag && tag != editedTag2) {
                 want << canonXml(ch, true);
             }
         }
@@ -581,8 +606,8 @@ struct C01 {
         for (const auto &w : std::as_const(want)) {
             if (!have.contains(w)) {
                 const QString lostTag = w.mid(1, w.indexOf(QLatin1Char('>')) - 1).section(QLatin1Char(' '), 0, 0);
-                ctx.violation(QStringLiteral("C01/sibling-lost-when-%1-%2:%3:%4").arg(del ? QStringLiteral("deleting") : QStringLiteral("duplicating"), editedTag.section(QLatin1Char('{'), 0, 0), c.name, lostTag.section(QLatin1Char('}'), 1)),
-                              QStringLiteral("%1 %2: the unrelated sibling %3 is lost: %4").arg(del ? QStringLiteral("without") : QStringLiteral("with a second"), showPath(path), w.left(200), QString::fromUtf8(out.left(300))),
+                ctx.violation(QStringLiteral("C01/sibling-lost-when-%1-%2:%3:%4").arg(del ? QStringLiteral("deleting") : QStringLiteral("duplicating"), editedTag.section(QLatin1Char('{'), 0, 0) + (path2.isEmpty() ? QString() : QLatin1Char('+') + editedTag2.section(QLatin1Char('{'), 0, 0)), c.name, lostTag.section(QLatin1Char('}'), 1)),
+                              QStringLiteral("%1 %2: the unrelated sibling %3 is lost: %4").arg(del ? QStringLiteral("without") : QStringLiteral("with a second"), showPath(path) + (path2.isEmpty() ? QString() : QStringLiteral(" and ") + showPath(path2)), w.left(200), QString::fromUtf8(out.left(300))),
                               caseJson(QStringLiteral("c01"), seedIdx, c.name, QStringLiteral("%1:%2").arg(del ? QStringLiteral("delete") : QStringLiteral("dup"), showPath(path)), domToBytes(m)));
                 break;
             }
@@ -674,7 +699,188 @@ struct C01 {
         reject(QStringLiteral("parseInt<qint16>"), parseInt<qint16>(QStringLiteral("32768")).has_value(), QStringLiteral("32768"));
         reject(QStringLiteral("parseInt<quint32>"), parseInt<quint32>(QStringLiteral("4294967296")).has_value(), QStringLiteral("4294967296"));
         reject(QStringLiteral("parseInt<qint32>"), parseInt<qint32>(QStringLiteral("2147483648")).has_value(), QStringLiteral("2147483648"));
+        integerFields();
         ctx.count(QStringLiteral("typed_field_checks"));
+    }
+
+    // ---- object engine for integer-typed fields: set through the public setter, serialise, parse, read through the getter.
+    template<typename T>
+    static std::vector<T> intAlphabet(__int128 lo, __int128 hi)
+    {
+        lo = std::max<__int128>(lo, std::numeric_limits<T>::min());
+        hi = std::min<__int128>(hi, std::numeric_limits<T>::max());
+        std::vector<T> out;
+        if (hi - lo < 70000) {
+            for (__int128 v = lo; v <= hi; ++v) {
+                out.push_back(T(v));
+            }
+            return out;
+        }
+        const __int128 one = 1;
+        std::vector<__int128> cand = { lo, lo + 1, -32769, -32768, -129, -128, -2, -1, 0, 1, 2, 9, 10, 11, 127, 128, 255, 256, 32767, 32768, 65535, 65536, (one << 31) - 1, one << 31,
+                                       (one << 32) - 1, one << 32, (one << 63) - 1, one << 63, hi - 1, hi };
+        std::sort(cand.begin(), cand.end());
+        cand.erase(std::unique(cand.begin(), cand.end()), cand.end());
+        for (auto v : cand) {
+            if (v >= lo && v <= hi) {
+                out.push_back(T(v));
+            }
+        }
+        return out;
+    }
+    static QString num(__int128 v)
+    {
+        return v < 0 ? QLatin1Char('-') + QString::number(quint64(-v)) : QString::number(quint64(v));
+    }
+
+    // make(v) -> serialised document ; back(root element) -> value read from the re-parsed object (nullopt = absent/rejected)
+    template<typename T>
+    void intField(const QString &name, __int128 lo, __int128 hi, const std::function<QByteArray(T)> &make, const std::function<std::optional<T>(const QDomElement &)> &back)
+    {
+        ctx.count(QStringLiteral("integer_fields"));
+        for (T v : intAlphabet<T>(lo, hi)) {
+            ++ctx.evaluations;
+            ++ctx.nontrivial;
+            const QByteArray xml = make(v);
+            QDomDocument d;
+            const auto root = parseDoc(xml, &d, true);
+            std::optional<T> got;
+            if (!root.isNull()) {
+                got = back(root);
+            }
+            if (!got || *got != v) {
+                ctx.violation(QStringLiteral("C01/typed-field-not-round-tripped:") + name,
+                              QStringLiteral("%1 = %2 comes back as %3 (serialised: %4)").arg(name, num(v), got ? num(*got) : QStringLiteral("(rejected/absent)"), QString::fromUtf8(xml.left(300))),
+                              QJsonObject { { QStringLiteral("engine"), QStringLiteral("c01-typed") }, { QStringLiteral("field"), name }, { QStringLiteral("value"), num(v) } });
+                break;
+            }
+        }
+    }
+    // the common case: Obj has toXml(writer) / parse(element)
+    template<typename Obj, typename T, typename Set, typename Get>
+    void field(const QString &name, __int128 lo, __int128 hi, Set set, Get get, std::function<void(Obj &)> prep = {})
+    {
+        intField<T>(
+            name, lo, hi,
+            [&](T v) {
+                Obj o;
+                if (prep) {
+                    prep(o);
+                }
+                set(o, v);
+                return writeXml([&](QXmlStreamWriter *w) { o.toXml(w); });
+            },
+            [&](const QDomElement &el) -> std::optional<T> {
+                Obj q;
+                q.parse(el);
+                return get(q);
+            });
+    }
+
+    void integerFields()
+    {
+        constexpr __int128 I32MAX = 2147483647, U32MAX = 4294967295u;
+        const __int128 I64MAX = std::numeric_limits<qint64>::max(), U64MAX = std::numeric_limits<quint64>::max();
+        using PT = QXmppJinglePayloadType;
+        field<PT, unsigned char>(QStringLiteral("QXmppJinglePayloadType.id"), 0, 127, [](PT &o, unsigned char v) { o.setId(v); }, [](const PT &o) { return std::optional<unsigned char>(o.id()); });
+        field<PT, unsigned char>(QStringLiteral("QXmppJinglePayloadType.channels"), 1, 255, [](PT &o, unsigned char v) { o.setChannels(v); }, [](const PT &o) { return std::optional<unsigned char>(o.channels()); });
+        field<PT, unsigned int>(QStringLiteral("QXmppJinglePayloadType.clockrate"), 0, U32MAX, [](PT &o, unsigned int v) { o.setClockrate(v); }, [](const PT &o) { return std::optional<unsigned int>(o.clockrate()); });
+        field<PT, unsigned int>(QStringLiteral("QXmppJinglePayloadType.maxptime"), 1, U32MAX, [](PT &o, unsigned int v) { o.setMaxptime(v); }, [](const PT &o) { return std::optional<unsigned int>(o.maxptime()); });
+        field<PT, unsigned int>(QStringLiteral("QXmppJinglePayloadType.ptime"), 1, U32MAX, [](PT &o, unsigned int v) { o.setPtime(v); }, [](const PT &o) { return std::optional<unsigned int>(o.ptime()); });
+        using CR = QXmppJingleRtpCryptoElement;
+        field<CR, uint32_t>(QStringLiteral("QXmppJingleRtpCryptoElement.tag"), 0, U32MAX, [](CR &o, uint32_t v) { o.setTag(v); }, [](const CR &o) { return std::optional<uint32_t>(o.tag()); },
+                            [](CR &o) { o.setCryptoSuite(QStringLiteral("AES_CM_128_HMAC_SHA1_80")); o.setKeyParams(QStringLiteral("inline:abc")); });
+        using FI = QXmppJingleRtpFeedbackInterval;
+        field<FI, uint64_t>(QStringLiteral("QXmppJingleRtpFeedbackInterval.value"), 0, U64MAX, [](FI &o, uint64_t v) { o.setValue(v); }, [](const FI &o) { return std::optional<uint64_t>(o.value()); });
+        using HE = QXmppJingleRtpHeaderExtensionProperty;
+        field<HE, uint32_t>(QStringLiteral("QXmppJingleRtpHeaderExtensionProperty.id"), 0, U32MAX, [](HE &o, uint32_t v) { o.setId(v); }, [](const HE &o) { return std::optional<uint32_t>(o.id()); },
+                            [](HE &o) { o.setUri(QStringLiteral("urn:ietf:params:rtp-hdrext:toffset")); });
+        using JD = QXmppJingleDescription;
+        field<JD, quint32>(QStringLiteral("QXmppJingleDescription.ssrc"), 0, U32MAX, [](JD &o, quint32 v) { o.setSsrc(v); }, [](const JD &o) { return std::optional<quint32>(o.ssrc()); },
+                           [](JD &o) { o.setType(QStringLiteral("urn:xmpp:jingle:apps:rtp:1")); o.setMedia(QStringLiteral("audio")); });
+        using JC = QXmppJingleCandidate;
+        auto prepC = [](JC &o) { o.setId(QStringLiteral("c1")); o.setHost(QHostAddress(QStringLiteral("192.0.2.1"))); o.setProtocol(QStringLiteral("udp")); o.setType(QXmppJingleCandidate::HostType); };
+        field<JC, int>(QStringLiteral("QXmppJingleCandidate.component"), 0, I32MAX, [](JC &o, int v) { o.setComponent(v); }, [](const JC &o) { return std::optional<int>(o.component()); }, prepC);
+        field<JC, int>(QStringLiteral("QXmppJingleCandidate.generation"), 0, I32MAX, [](JC &o, int v) { o.setGeneration(v); }, [](const JC &o) { return std::optional<int>(o.generation()); }, prepC);
+        field<JC, int>(QStringLiteral("QXmppJingleCandidate.network"), 0, I32MAX, [](JC &o, int v) { o.setNetwork(v); }, [](const JC &o) { return std::optional<int>(o.network()); }, prepC);
+        field<JC, quint16>(QStringLiteral("QXmppJingleCandidate.port"), 0, 65535, [](JC &o, quint16 v) { o.setPort(v); }, [](const JC &o) { return std::optional<quint16>(o.port()); }, prepC);
+        field<JC, int>(QStringLiteral("QXmppJingleCandidate.priority"), 0, I32MAX, [](JC &o, int v) { o.setPriority(v); }, [](const JC &o) { return std::optional<int>(o.priority()); }, prepC);
+        using PR = QXmppPresence;
+        field<PR, int>(QStringLiteral("QXmppPresence.priority"), -128, 127, [](PR &o, int v) { o.setPriority(v); }, [](const PR &o) { return std::optional<int>(o.priority()); });
+        using RQ = QXmppResultSetQuery;
+        field<RQ, int>(QStringLiteral("QXmppResultSetQuery.max"), 0, I32MAX, [](RQ &o, int v) { o.setMax(v); }, [](const RQ &o) { return std::optional<int>(o.max()); });
+        field<RQ, int>(QStringLiteral("QXmppResultSetQuery.index"), 0, I32MAX, [](RQ &o, int v) { o.setIndex(v); }, [](const RQ &o) { return std::optional<int>(o.index()); });
+        using RR = QXmppResultSetReply;
+        field<RR, int>(QStringLiteral("QXmppResultSetReply.count"), 0, I32MAX, [](RR &o, int v) { o.setCount(v); }, [](const RR &o) { return std::optional<int>(o.count()); });
+        field<RR, int>(QStringLiteral("QXmppResultSetReply.index"), 0, I32MAX, [](RR &o, int v) { o.setIndex(v); }, [](const RR &o) { return std::optional<int>(o.index()); }, [](RR &o) { o.setFirst(QStringLiteral("a")); });
+        using IO = QXmppIbbOpenIq;
+        field<IO, long>(QStringLiteral("QXmppIbbOpenIq.blockSize"), 0, I64MAX, [](IO &o, long v) { o.setBlockSize(v); }, [](const IO &o) { return std::optional<long>(o.blockSize()); }, [](IO &o) { o.setSid(QStringLiteral("s")); });
+        using ID = QXmppIbbDataIq;
+        field<ID, quint16>(QStringLiteral("QXmppIbbDataIq.sequence"), 0, 65535, [](ID &o, quint16 v) { o.setSequence(v); }, [](const ID &o) { return std::optional<quint16>(o.sequence()); }, [](ID &o) { o.setSid(QStringLiteral("s")); });
+        using UR = QXmppHttpUploadRequestIq;
+        field<UR, qint64>(QStringLiteral("QXmppHttpUploadRequestIq.size"), 0, I64MAX, [](UR &o, qint64 v) { o.setSize(v); }, [](const UR &o) { return std::optional<qint64>(o.size()); }, [](UR &o) { o.setFileName(QStringLiteral("f")); });
+        using RP = QXmppRpcResponseIq;
+        // a fault code of 0 means "no fault": both half ranges
+        field<RP, int>(QStringLiteral("QXmppRpcResponseIq.faultCode(+)"), 1, I32MAX, [](RP &o, int v) { o.setFaultCode(v); o.setFaultString(QStringLiteral("f")); }, [](const RP &o) { return std::optional<int>(o.faultCode()); }, [](RP &o) { o.setType(QXmppIq::Result); });
+        field<RP, int>(QStringLiteral("QXmppRpcResponseIq.faultCode(-)"), -I32MAX - 1, -1, [](RP &o, int v) { o.setFaultCode(v); o.setFaultString(QStringLiteral("f")); }, [](const RP &o) { return std::optional<int>(o.faultCode()); }, [](RP &o) { o.setType(QXmppIq::Result); });
+        using SE = QXmppStanza::Error;
+        auto prepE = [](SE &o) { o.setType(QXmppStanza::Error::Cancel); o.setCondition(QXmppStanza::Error::FeatureNotImplemented); };
+        field<SE, int>(QStringLiteral("QXmppStanza::Error.code"), 1, I32MAX, [](SE &o, int v) { o.setCode(v); }, [](const SE &o) { return std::optional<int>(o.code()); }, prepE);
+        field<SE, qint64>(QStringLiteral("QXmppStanza::Error.maxFileSize"), 1, I64MAX, [](SE &o, qint64 v) { o.setFileTooLarge(true); o.setMaxFileSize(v); }, [](const SE &o) { return std::optional<qint64>(o.maxFileSize()); }, prepE);
+        using ES = QXmppExternalService;
+        field<ES, int>(QStringLiteral("QXmppExternalService.port"), 0, 65535, [](ES &o, int v) { o.setPort(v); }, [](const ES &o) { return o.port(); }, [](ES &o) { o.setHost(QStringLiteral("h")); o.setType(QStringLiteral("stun")); });
+        using FM = QXmppFileMetadata;
+        field<FM, uint32_t>(QStringLiteral("QXmppFileMetadata.height"), 0, U32MAX, [](FM &o, uint32_t v) { o.setHeight(v); }, [](const FM &o) { return o.height(); });
+        field<FM, uint32_t>(QStringLiteral("QXmppFileMetadata.width"), 0, U32MAX, [](FM &o, uint32_t v) { o.setWidth(v); }, [](const FM &o) { return o.width(); });
+        field<FM, uint32_t>(QStringLiteral("QXmppFileMetadata.length"), 0, U32MAX, [](FM &o, uint32_t v) { o.setLength(v); }, [](const FM &o) { return o.length(); });
+        field<FM, uint64_t>(QStringLiteral("QXmppFileMetadata.size"), 0, U64MAX, [](FM &o, uint64_t v) { o.setSize(v); }, [](const FM &o) { return o.size(); });
+        using TH = QXmppThumbnail;
+        auto prepT = [](TH &o) { o.setUri(QStringLiteral("cid:sha1+ffd7c8d28e9c5e82afea41f97108c6b4@bob.xmpp.org")); };
+        field<TH, uint32_t>(QStringLiteral("QXmppThumbnail.width"), 0, U32MAX, [](TH &o, uint32_t v) { o.setWidth(v); }, [](const TH &o) { return o.width(); }, prepT);
+        field<TH, uint32_t>(QStringLiteral("QXmppThumbnail.height"), 0, U32MAX, [](TH &o, uint32_t v) { o.setHeight(v); }, [](const TH &o) { return o.height(); }, prepT);
+        using TI = QXmppTuneItem;
+        field<TI, quint16>(QStringLiteral("QXmppTuneItem.length"), 0, 65535, [](TI &o, quint16 v) { o.setLength(v); }, [](const TI &o) { return o.length(); }, [](TI &o) { o.setTitle(QStringLiteral("t")); });
+        field<TI, quint8>(QStringLiteral("QXmppTuneItem.rating"), 1, 10, [](TI &o, quint8 v) { o.setRating(v); }, [](const TI &o) { return o.rating(); }, [](TI &o) { o.setTitle(QStringLiteral("t")); });
+        // data-form backed option classes
+        auto formField = [&](const QString &name, auto tag, __int128 lo, __int128 hi, auto set, auto get) {
+            using Obj = typename decltype(tag)::Obj;
+            using T = typename decltype(tag)::T;
+            intField<T>(
+                name, lo, hi,
+                [&](T v) {
+                    Obj o;
+                    set(o, v);
+                    const QXmppDataForm f = o.toDataForm();
+                    return writeXml([&](QXmlStreamWriter *w) { f.toXml(w); });
+                },
+                [&](const QDomElement &el) -> std::optional<T> {
+                    QXmppDataForm f;
+                    f.parse(el);
+                    const auto q = Obj::fromDataForm(f);
+                    return q ? get(*q) : std::nullopt;
+                });
+        };
+        struct NC { using Obj = QXmppPubSubNodeConfig; using T = quint32; };
+        formField(QStringLiteral("QXmppPubSubNodeConfig.itemExpiry"), NC {}, 0, U32MAX, [](QXmppPubSubNodeConfig &o, quint32 v) { o.setItemExpiry(v); }, [](const QXmppPubSubNodeConfig &o) { return o.itemExpiry(); });
+        formField(QStringLiteral("QXmppPubSubNodeConfig.maxPayloadSize"), NC {}, 0, U32MAX, [](QXmppPubSubNodeConfig &o, quint32 v) { o.setMaxPayloadSize(v); }, [](const QXmppPubSubNodeConfig &o) { return o.maxPayloadSize(); });
+        formField(QStringLiteral("QXmppPubSubNodeConfig.childNodesMax"), NC {}, 0, U32MAX, [](QXmppPubSubNodeConfig &o, quint32 v) { o.setChildNodesMax(v); }, [](const QXmppPubSubNodeConfig &o) { return o.childNodesMax(); });
+        struct SO { using Obj = QXmppPubSubSubscribeOptions; using T = quint32; };
+        formField(QStringLiteral("QXmppPubSubSubscribeOptions.digestFrequencyMs"), SO {}, 0, U32MAX, [](QXmppPubSubSubscribeOptions &o, quint32 v) { o.setDigestFrequencyMs(v); }, [](const QXmppPubSubSubscribeOptions &o) { return o.digestFrequencyMs(); });
+        // entity time: offsets representable in XEP-0082 (whole minutes)
+        intField<int>(
+            QStringLiteral("QXmppEntityTimeIq.tzo(minutes)"), -14 * 60, 14 * 60,
+            [&](int v) {
+                QXmppEntityTimeIq o;
+                o.setType(QXmppIq::Result);
+                o.setUtc(QDateTime(QDate(2020, 1, 1), QTime(0, 0), Qt::UTC));
+                o.setTzo(v * 60);
+                return writeXml([&](QXmlStreamWriter *w) { o.toXml(w); });
+            },
+            [&](const QDomElement &el) -> std::optional<int> {
+                QXmppEntityTimeIq q;
+                q.parse(el);
+                return q.tzo() / 60;
+            });
     }
 };
 
@@ -742,7 +948,8 @@ struct C02 {
     }
 
     // all hostile mutants (k = 1) of one document
-    QList<QPair<QString, QByteArray>> mutants(const QDomElement &root, bool thorough)
+    // cheapOnly: the second edit of a k=2 mutant (delete / duplicate / drop or empty an attribute)
+    QList<QPair<QString, QByteArray>> mutants(const QDomElement &root, bool thorough, bool cheapOnly = false)
     {
         QList<QPair<QString, QByteArray>> out;
         QList<QDomElement> els;
@@ -764,6 +971,8 @@ struct C02 {
             if (i > 0) {
                 withCopy(QStringLiteral("delete"), [](QDomDocument &, QDomElement el) { el.parentNode().removeChild(el); return true; });
                 withCopy(QStringLiteral("duplicate"), [](QDomDocument &, QDomElement el) { el.parentNode().insertAfter(el.cloneNode(true), el); return true; });
+            }
+            if (i > 0 && !cheapOnly) {
                 withCopy(QStringLiteral("swap"), [](QDomDocument &, QDomElement el) {
                     auto n = el.nextSiblingElement();
                     if (n.isNull()) {
@@ -804,7 +1013,7 @@ struct C02 {
                 }
             }
             // grammar-aware insertion: children this kind of parent has elsewhere in the corpus
-            const auto pool = childPool.value(sigOf(els[i]));
+            const auto pool = cheapOnly ? QList<QByteArray>() : childPool.value(sigOf(els[i]));
             for (int p = 0; p < pool.size(); ++p) {
                 withCopy(QStringLiteral("insert-pool-child-%1").arg(p), [&](QDomDocument &d, QDomElement el) {
                     QDomDocument cd;
@@ -823,12 +1032,15 @@ struct C02 {
                 }
                 withCopy(QStringLiteral("drop-attr-") + name, [&](QDomDocument &, QDomElement el) { el.removeAttribute(name); return true; });
                 for (const auto &v : attrValues) {
+                    if (cheapOnly && !v.isEmpty()) {
+                        continue;
+                    }
                     withCopy(QStringLiteral("attr-%1=%2").arg(name, v.left(12)), [&](QDomDocument &, QDomElement el) { el.setAttribute(name, v); return true; });
                 }
             }
         }
         // deep nesting
-        if (nestDepth >= 0) {
+        if (nestDepth >= 0 && !cheapOnly) {
             const int depth = nestDepth > 0 ? nestDepth : (thorough ? 1024 : 256);
             QByteArray inner = domToBytes(root);
             QByteArray open, close;
@@ -1069,6 +1281,42 @@ mainLoop:
                     }
                     auto ms = cc.mutants(root, ctx.thorough());
                     ms.prepend(qMakePair(QStringLiteral("seed"), domToBytes(root)));
+                    if (ctx.thorough()) {
+                        // k = 2: a second cheap edit (delete / duplicate / drop or empty an attribute) on top of every structural first edit
+                        const int cap = 2500;
+                        QSet<QByteArray> seen;
+                        for (const auto &m : std::as_const(ms)) {
+                            seen.insert(m.second);
+                        }
+                        const int n1 = ms.size();
+                        int added = 0;
+                        for (int i = 1; i < n1 && added < cap; ++i) {
+                            const QString op1 = ms[i].first.section(QLatin1Char(':'), 0, 0);
+                            if (op1.startsWith(QLatin1String("nest")) || (op1.startsWith(QLatin1String("attr-")) && !op1.endsWith(QLatin1Char('=')))) {
+                                continue;
+                            }
+                            QDomDocument d1;
+                            const auto e1 = parseDoc(ms[i].second, &d1, true);
+                            if (e1.isNull()) {
+                                continue;
+                            }
+                            const auto second = cc.mutants(e1, false, true);
+                            for (const auto &m2 : second) {
+                                if (added >= cap) {
+                                    break;
+                                }
+                                if (!seen.contains(m2.second)) {
+                                    seen.insert(m2.second);
+                                    ms << qMakePair(ms[i].first + QStringLiteral(" ; ") + m2.first, m2.second);
+                                    ++added;
+                                }
+                            }
+                        }
+                        child.count(QStringLiteral("k2_mutants"), added);
+                        if (added >= cap) {
+                            child.count(QStringLiteral("k2_capped_seeds"));
+                        }
+                    }
                     for (const auto &m : std::as_const(ms)) {
                         QDomDocument dm;
                         const auto el = parseDoc(m.second, &dm, true);
